@@ -771,7 +771,7 @@ static void run_op(int client, const json &op, OpResult &r)
 	r.client = client;
 	int cx = op.value("c", 0);
 	r.ctx = cx;
-	int key = client * 1000 + cx;
+	int key = op.value("owner", client) * 1000 + cx; // "owner": the step works on another client's context (sibling instances)
 
 	// per-op fault and callback configuration
 	W.op_alloc_budget = E->default_alloc_budget;
@@ -1068,7 +1068,7 @@ RunResult execute(const json &plan, const ExecOpts &opts)
 	for (const json &op : steps) {
 		int cl = op.value("cl", 0);
 		int my_index = index++;
-		if (opts.only_client >= 0 && cl != opts.only_client)
+		if (opts.only_client >= 0 && cl != opts.only_client && !op.value("shared", 0))
 			continue;
 		ex.res.ops.emplace_back();
 		OpResult &r = ex.res.ops.back();
